@@ -3,14 +3,14 @@
 PROP = {
     "id": "C18",
     "level": "exploration",
-    "technique": "property-based testing (rapid): differential test of watchers.checkThreshold against an exact rational (math/big) reference with a derived sub-byte tolerance, exact pairwise monotonicity, CheckDiskUsage against a direct statfs(2), and the flag->config path of --min-space-required in child processes",
+    "technique": "property-based testing (rapid): differential test of watchers.checkThreshold against an exact rational (math/big) reference with a derived sub-byte tolerance, exact pairwise monotonicity, CheckDiskUsage against a direct statfs(2), the running disk watcher (real WatchDiskSpace under virtual time, threshold moved across the live free space, model of the paused state after every tick), and the flag->config path of --min-space-required in child processes",
     "level_text": "Generated-input search with shrinking over (total, free, min-space-required) triples: every decision of checkThreshold is compared with the statement's threshold computed in exact rational arithmetic (must refuse below floor(T), must accept from ceil(T); both coincide when T is an integer, so an off-by-one or a wrong constant is a failure while sub-byte truncation is not); monotonicity in free is checked exactly on 2-4 free values per (total, setting); CheckDiskUsage is compared with the decision on the numbers of a direct statfs(2) of the same path (settings placed at live free space -2..+2 bytes); the text given after --min-space-required is followed through the real pflag->viper->config path in child processes (every whole number 0..128 GiB exhaustively, plus generated texts) and must arrive as the same float64. Exploration, not proof: the 2^192 triple space is sampled (boundary constructions + magnitude-uniform), not enumerated.",
-    "level_note": "Trusts the harness's reference (self-tested in the same run against hand-computed points, and its tolerance band is verified to be <= 1 byte wide on every generated setting). The decision function is checked in isolation; that start-up refusal and the running watcher call it (pipeline.go, WatchDiskSpace pause/resume) is not exercised here. C18/statfs sees only the sandbox's one volume (bavail != bfree there, frsize == bsize), so a bfree/bavail mix-up is detectable but a bsize/frsize mix-up is not. 'free space' is taken to be f_bavail*f_bsize and the setting to be the float64 held by the config; C18/config checks that this float64 is the number typed after --min-space-required.",
+    "level_note": "Trusts the harness's reference (self-tested in the same run against hand-computed points, and its tolerance band is verified to be <= 1 byte wide on every generated setting). The decision function is checked in isolation; the running watcher is exercised by C18/watcher (the harness cannot change the volume, so it moves the setting - which the watcher re-reads at every tick - far above / far below the live free space); the start-up refusal in pipeline.go is not exercised here (C03/C04's process harness starts crawls with a tiny setting only). C18/statfs sees only the sandbox's one volume (bavail != bfree there, frsize == bsize), so a bfree/bavail mix-up is detectable but a bsize/frsize mix-up is not. 'free space' is taken to be f_bavail*f_bsize and the setting to be the float64 held by the config; C18/config checks that this float64 is the number typed after --min-space-required.",
     "rule": ("rapid-generated (total, free, min-space-required) triples: total and free uniform over bit lengths 0..64 plus boundary constructions "
              "(total = 256 GiB -1/0/+1 and +-4096, multiples of 128 (integral default threshold), blocks*bsize, > 2^53, 0, 2^64-1; free = floor(T)/ceil(T) -2..+2, "
              "T +- 4096, T +- 3 ulp, 2^63 -2..+2, 0, 2^64-1; min-space in {0, -0, tiny, whole GiB, decimal fractions, whole bytes, half bytes, T >= 2^53, T >= 2^64, +Inf, negative, NaN}); "
              "a case is non-trivial when free is within 2 bytes of the exact threshold (within 2 float64 ulp of it when the threshold is >= 2^53) "
-             "(C18/monotone: when one of its free values is; C18/statfs: same rule on the live numbers; C18/config: when a non-zero value is given - the whole numbers 0..128 are swept exhaustively in every run); distinct = distinct triple (64-bit hash) per facet"),
+             "(C18/monotone: when one of its free values is; C18/statfs: same rule on the live numbers; C18/watcher: when the history makes the paused state change at least twice; C18/config: when a non-zero value is given - the whole numbers 0..128 are swept exhaustively in every run); distinct = distinct triple (64-bit hash) per facet"),
     "assumptions": [
         "free space = f_bavail * f_bsize and volume size = f_blocks * f_bsize of statfs(2) on the job path, as CheckDiskUsage reads them",
         "min-space-required 'given' means > 0 (0 is the flag's default); for negative or NaN settings only what both readings of the statement demand is asserted (accept when the default threshold accepts)",
@@ -27,6 +27,9 @@ PROP = {
         {"name": "c18cfg", "pkg": "./internal/pkg/controler/watchers", "run": "^TestVerif_C18_Config$", "kind": "rapid",
          "facets": ["C18/config"],
          "checks": (150, 1000), "shards": (2, 16), "timeout": (600, 3000)},
+        {"name": "c18watch", "pkg": "./internal/pkg/controler/watchers", "run": "^TestVerif_C18_Watcher$", "kind": "rapid", "toolchain": "go126",
+         "facets": ["C18/watcher"],
+         "checks": (1500, 20000), "shards": (2, 8), "timeout": (600, 3000)},
         {"name": "c18kf-overflow", "pkg": "./internal/pkg/controler/watchers", "run": "^TestVerifKF_C18_MinSpaceOverflow$", "kind": "kf",
          "finding": "C18-minspace-overflows-uint64", "facets": [],
          "checks": (2000, 20000), "shards": (1, 1), "shrinktime": (5, 10), "timeout": (600, 600)},
